@@ -4,6 +4,8 @@ import (
 	"fmt"
 	"go/ast"
 	"go/constant"
+	"go/token"
+	"go/types"
 	"math"
 	"sort"
 	"strings"
@@ -40,6 +42,38 @@ var actTable = map[string]actSpec{
 	"SignActivation":                          {-1, 1, false},
 	"SineActivation":                          {-1, 1, false},
 	"StepActivation":                          {0, 1, true},
+}
+
+// documented closed forms, by domain piece [lo,hi) (sources: the doc comments of neat/math/activations.go and
+// the NEAT/SharpNEAT definitions they name). Formulas are Go expressions over x.
+type actPiece struct {
+	lo, hi  float64
+	formula string
+}
+
+var inf = math.Inf(1)
+
+var actDefs = map[string][]actPiece{
+	"SigmoidPlainActivation":                  {{-inf, inf, "1/(1+math.Exp(-x))"}},
+	"SigmoidReducedActivation":                {{-inf, inf, "1/(1+math.Exp(-0.5*x))"}},
+	"SigmoidSteepenedActivation":              {{-inf, inf, "1/(1+math.Exp(-4.924273*x))"}},
+	"SigmoidBipolarActivation":                {{-inf, inf, "2/(1+math.Exp(-4.924273*x))-1"}},
+	"SigmoidApproximationActivation":          {{-inf, -4, "0"}, {-4, 0, "(x+4)*(x+4)/32"}, {0, 4, "1-(x-4)*(x-4)/32"}, {4, inf, "1"}},
+	"SigmoidSteepenedApproximationActivation": {{-inf, -1, "0"}, {-1, 0, "(x+1)*(x+1)/2"}, {0, 1, "1-(x-1)*(x-1)/2"}, {1, inf, "1"}},
+	"SigmoidInverseAbsoluteActivation":        {{-inf, inf, "0.5+0.5*x/(1+math.Abs(x))"}},
+	"SigmoidLeftShiftedActivation":            {{-inf, inf, "1/(1+math.Exp(-x-2.4621365))"}},
+	"SigmoidLeftShiftedSteepenedActivation":   {{-inf, inf, "1/(1+math.Exp(-(4.924273*x+2.4621365)))"}},
+	"SigmoidRightShiftedSteepenedActivation":  {{-inf, inf, "1/(1+math.Exp(-(4.924273*x-2.4621365)))"}},
+	"TanhActivation":                          {{-inf, inf, "math.Tanh(0.9*x)"}},
+	"GaussianBipolarActivation":               {{-inf, inf, "2*math.Exp(-(2.5*x)*(2.5*x))-1"}},
+	"GaussianActivation":                      {{-inf, inf, "math.Exp(-x*x)"}},
+	"LinearActivation":                        {{-inf, inf, "x"}},
+	"LinearAbsActivation":                     {{-inf, inf, "math.Abs(x)"}},
+	"LinearClippedActivation":                 {{-inf, -1, "-1"}, {-1, 1, "x"}, {1, inf, "1"}},
+	"NullActivation":                          {{-inf, inf, "0"}},
+	"SignActivation":                          {{-inf, 0, "-1"}, {0, inf, "1"}},
+	"SineActivation":                          {{-inf, inf, "math.Sin(2*x)"}},
+	"StepActivation":                          {{-inf, 0, "0"}, {0, inf, "1"}},
 }
 
 var moduleConsts = map[string]string{"MultiplyModuleActivation": "multiply", "MaxModuleActivation": "max", "MinModuleActivation": "min"}
@@ -260,6 +294,109 @@ func C18(p *Prog, r *Run) {
 			}
 		}
 		r.Floor("scalar activation closures interpreted", n, 20)
+	})
+
+	r.Rule("C18.4", "closed form: on every piece of its input domain each scalar activation has the algebraic normal form (quotient of polynomials over x and exp/tanh/sin/abs applications) of its documented definition", func() {
+		pk := p.ByPath[PkgM]
+		n := 0
+		for _, g := range regs {
+			if g.module || g.constName == "" || g.fn == nil {
+				continue
+			}
+			def, ok := actDefs[g.constName]
+			if !ok {
+				r.Undecided("definition:"+g.constName, g.pos, "no documented closed form for this activation type in the checker's table")
+				continue
+			}
+			lit, ok := g.fn.Syntax().(*ast.FuncLit)
+			if !ok {
+				r.Undecided("definition:"+g.constName, g.pos, "the registered function is not a function literal")
+				continue
+			}
+			pos := p.Pos(lit.Pos())
+			res, ai, bad := analyseScalar(pk.TypesInfo, lit)
+			if bad != "" {
+				r.Undecided("definition:"+g.constName, pos, "the closure's pieces cannot be enumerated: "+bad)
+				continue
+			}
+			n++
+			locals := map[types.Object]ast.Expr{}
+			okLocals := true
+			ast.Inspect(lit.Body, func(nd ast.Node) bool {
+				as, ok := nd.(*ast.AssignStmt)
+				if !ok {
+					return true
+				}
+				for j, l := range as.Lhs {
+					id, ok := l.(*ast.Ident)
+					if !ok || len(as.Lhs) != len(as.Rhs) {
+						okLocals = false
+						continue
+					}
+					obj := pk.TypesInfo.Defs[id]
+					if obj == nil || as.Tok != token.DEFINE {
+						okLocals = false // re-assignment: not a single-assignment local
+						continue
+					}
+					locals[obj] = as.Rhs[j]
+				}
+				return true
+			})
+			if !okLocals {
+				r.Undecided("definition:"+g.constName, pos, "the closure re-assigns a local; the normal form needs single-assignment locals")
+				continue
+			}
+			okD, why := true, ""
+			covered := make([]bool, len(def))
+			for _, x := range res {
+				if x.piece.lo > x.piece.hi || (x.piece.lo == 0 && x.piece.hi == 0 && !math.Signbit(x.piece.lo) && math.Signbit(x.piece.hi)) {
+					continue // empty piece (left over from the interpreter's split at +0/-0)
+				}
+				if x.piece.lo == x.piece.hi {
+					continue // a single input value (the interpreter's split at +0/-0): measure zero, not compared
+				}
+				rep := (x.piece.lo + x.piece.hi) / 2
+				switch {
+				case x.piece.lo <= -1e299 && x.piece.hi >= 1e299:
+					rep = 0.5
+				case x.piece.lo <= -1e299:
+					rep = x.piece.hi - 1
+				case x.piece.hi >= 1e299:
+					rep = x.piece.lo + 1
+				}
+				got, err := (&nfBuilder{info: pk.TypesInfo, input: ai.input, locals: locals}).build(x.expr)
+				if err != nil {
+					okD, why = false, fmt.Sprintf("the result %s on [%g,%g] has no normal form: %v", exprStr(x.expr), x.piece.lo, x.piece.hi, err)
+					break
+				}
+				found := false
+				for i, d := range def {
+					if rep < d.lo || rep >= d.hi {
+						continue
+					}
+					found = true
+					covered[i] = true
+					want, err := nfOfReference(d.formula)
+					if err != nil {
+						okD, why = false, "reference formula "+d.formula+": "+err.Error()
+						break
+					}
+					if !nfEqual(got, want) {
+						okD, why = false, fmt.Sprintf("on [%g,%g] the function is %s, normal form %s; its definition there is %s, normal form %s", x.piece.lo, x.piece.hi, exprStr(x.expr), got, d.formula, want)
+					}
+				}
+				if !found {
+					okD, why = false, fmt.Sprintf("the piece [%g,%g] lies outside the documented domain pieces", x.piece.lo, x.piece.hi)
+				}
+			}
+			for i, c := range covered {
+				if !c && okD {
+					okD, why = false, fmt.Sprintf("no piece of the closure lies in [%g,%g) where the definition is %s", def[i].lo, def[i].hi, def[i].formula)
+				}
+			}
+			r.Check(okD, "definition:"+g.constName, pos, fmt.Sprintf("%d piece(s) equal to the documented closed form", len(res)), g.constName+" deviates from its closed form: "+why)
+		}
+		r.Floor("scalar activation closures compared with their definition", n, 20)
 	})
 
 	r.Rule("C18.3", "module folds: multiply from 1 over every input; max/min with math.Max/math.Min over every input from an identity of the domain", func() {
